@@ -14,6 +14,8 @@ pub enum Obs {
     Push { keys: Vec<u64>, kept: bool, queue_len: usize, closed: bool },
     /// an in-place cost change of a charged key (`SampledLFU::update`)
     CostUpdate { key: u64, prev: i64, cost: i64 },
+    /// `policy.clear()` runs (under the policy mutex)
+    PolicyCleared,
     /// the policy worker applied a batch
     Applied { keys: Vec<u64> },
 }
